@@ -118,3 +118,51 @@ def serveOne (env : Env) (req : Msg) : List Action :=
       else dispatch env req ++ [.next]
 
 end Rpcx.Srv
+
+namespace Rpcx.Srv
+open Rpcx Rpcx.Gen
+
+/-! ### the three ingresses (server/server.go serveListener, gateway.go, jsonrpc2.go) -/
+
+inductive Ingress | native | gateway | jsonrpc
+deriving DecidableEq, Repr
+
+inductive HttpOut
+  | result (payload : Bytes)     -- 200 with the reply payload / JSON-RPC "result"
+  | error (text : Bytes)         -- HTTP error status or X-RPCX-ErrorMessage / JSON-RPC "error"
+  | closed                       -- the connection was refused / closed without an answer
+deriving DecidableEq, Repr
+
+/-- router handlers are reachable on the native ingress only: the HTTP ingresses go straight to
+    handleRequest, where a router path is just an unknown service -/
+def httpEnv (env : Env) : Env := if env.target = .router then { env with target := .noService } else env
+
+/-- handleGatewayRequest / handleJSONRPCRequest after header conversion: plugins, auth (always –
+    there is no heartbeat exemption here), then the shared handleRequest.
+    `acceptOk` is the verdict of the accept-stage plugins for the connection (after the fix they
+    are applied to the HTTP listeners too). -/
+def httpOne (acceptOk : Bool) (env : Env) (req : Msg) : List Action × HttpOut :=
+  if !acceptOk then ([.closeConn], .closed)
+  else if env.reachLimit then ([], .error (textOf "request reached rate limit"))
+  else if !env.postReadOk then ([], .error (textOf "rejected"))
+  else match env.authErr with
+    | some t => ([], .error t)
+    | none =>
+      -- the HTTP front ends always produce an answer: evaluate as a two-way request
+      let req2 := { req with hdr := Header.setOneway req.hdr false }
+      let acts := dispatch (httpEnv env) req2
+      let out := match acts.filterMap (fun a => match a with | .write m => some m | _ => none) with
+        | m :: _ =>
+          if Header.messageStatusType m.hdr == C.MessageStatusType_Error
+          then HttpOut.error ((metaLookup m.md serviceErrorKey).getD [])
+          else HttpOut.result m.payload
+        | [] => HttpOut.closed
+      (acts.filter (· == .invoke), out)
+
+/-- one request through any ingress -/
+def ingressOne (ing : Ingress) (acceptOk : Bool) (env : Env) (req : Msg) : List Action :=
+  match ing with
+  | .native => if !acceptOk then [.closeConn] else serveOne env req
+  | _ => (httpOne acceptOk env req).1
+
+end Rpcx.Srv
